@@ -637,18 +637,37 @@ def op_set_flat(rng, inp, via="array", malformed=False):
     else:
         m = fl + (rng.choice([-1, 1, 2]) if malformed else 0)
         vals = values_of_type(rng, ty, max(0, m))
-        form = rng.choice(["pa", "pa_chunked", "series_arrow"])
+        form = rng.choice(["pa", "pa_chunked", "series_arrow", "numpy", "list", "series_numpy"])
         if not vals and form == "pa_chunked":
             form = "pa"        # pa.array(<empty ChunkedArray>) infers the null type: Arrow's inference, not generated
+        if form in ("numpy", "list", "series_numpy") and (ty in ("timestamp",) or (not keep and not vals)):
+            form = "pa"        # python / numpy values of these kinds are typed by Arrow's inference: not generated
+        if form in ("numpy", "series_numpy") and ty in ("int64", "bool") and any(v is None for v in vals):
+            form = "list"      # a numpy integer / boolean array cannot hold a missing value
         pa_arr = pa.array(vals, type=gen.TYPES[ty])
+        numpy_like = form in ("numpy", "list", "series_numpy")
         if form == "pa":
             value = pa_arr
         elif form == "pa_chunked":
             cut = rng.randint(0, len(vals))
             value = pa.chunked_array([pa_arr[:cut], pa_arr[cut:]], type=gen.TYPES[ty])
-        else:
+        elif form == "series_arrow":
             value = pd.Series(pa_arr, dtype=pd.ArrowDtype(gen.TYPES[ty]))
-        mval, sval = f"(FArray {cq_vals(vals)})", f"(FVFlat {cq_vals(vals)})"
+        else:
+            # what users mostly pass: numpy arrays, python lists, numpy-backed Series; NaN and None both mean "missing" there
+            if ty == "double":
+                py = [float("nan") if v is None else v for v in vals] if form != "list" else list(vals)
+                npv = np.array(py, dtype=np.float64) if form != "list" else py
+            elif ty == "string":
+                npv = np.array(list(vals), dtype=object) if form != "list" else list(vals)
+            else:
+                npv = np.array(list(vals), dtype={"int64": np.int64, "bool": np.bool_}[ty]) if form != "list" else list(vals)
+            value = pd.Series(npv) if form == "series_numpy" else npv
+            if not keep and form == "list" and all(v is None or v != v for v in vals):
+                value, numpy_like = pa_arr, False       # nothing to infer a type from
+                form = "pa"
+        conv = f"(from_pandas {cq_bool(numpy_like)} {cq_vals(vals)})"
+        mval, sval = f"(FArray {conv})", f"(FVFlat {conv})"
         vdesc = {"flat": [repr(x) for x in vals], "form": form}
     ety = core.ETY[str(gen.TYPES[ty])]
 
